@@ -229,13 +229,13 @@ PROPERTIES = {
         'technique': TECH,
     },
     'C10': {
-        'units': [mainloop.MainLoop, ps.UpdateXProjection, ps.UpdateYProjection, ps.Integrate, ps.Variance, ef.WakePotential, ef.UpdateCSR, ef.ElectricFieldScale],
+        'units': [mainloop.MainLoop, ps.UpdateXProjection, ps.UpdateYProjection, ps.Integrate, ps.Variance, ef.WakePotential, ef.UpdateCSR, ef.ElectricFieldScale, io.HDF5FileSources],
         'lemmas': [],
         'level': 'other',
         'claim': 'partial: at every output event and at exit the CSR, wake-potential and particle datasets receive as many records as the time axis; the time value of the final record is simulationstep/steps; the derived quantities appended are the ones '
                  'computed by the verified projection/moment/CSR functions from the current grid (refresh calls precede the append in the skeleton); pending RF records are flushed at exit',
-        'assumptions': [DROPS, 'HDF5File is not under contract: which dataset each append overload extends is taken from reading the code, the HDF5 library is trusted'],
-        'uncovered': ['axes datasets (known defect: energy axis written from axis 0 — see DESIGN §7 item 5, not fixed in this round)', 'unit-conversion attributes', 'per-bunch row strides of /CSR/Spectrum', 'time values of intermediate records'],
+        'assumptions': [DROPS, 'HDF5File: only the pairing dataset <- source accessor of append(ps,t,at) and of the two axis writes is checked (AST facts); which dataset the other append overloads extend is taken from reading the code; the HDF5 library is trusted'],
+        'uncovered': ['frequency and time axes', 'unit-conversion attributes other than the wake scale and Volt factor', 'per-bunch row strides of /CSR/Spectrum', 'time values of intermediate records'],
         'explanation': 'ghost row counters on the control skeleton',
         'technique': TECH,
     },
